@@ -251,6 +251,10 @@ package dials
 //@          ite(old(sourceValues[k].source) == watchTab.source
 //@              && (forall j int :: 0 <= j && j < k ==> old(sourceValues[j].source) != watchTab.source),
 //@              watchTab.value, old(sourceValues[k].value))
+//@   ensures C05_the_reported_value_stays_recorded_whatever_the_outcome: forall k int :: {sourceValues[k].value} 0 <= k && k < len(sourceValues) ==>
+//@        sourceValues[k].value == ite(old(sourceValues[k].source) == watchTab.source
+//@              && (forall j int :: 0 <= j && j < k ==> old(sourceValues[j].source) != watchTab.source),
+//@              watchTab.value, old(sourceValues[k].value))
 //@   ensures C09_verify_iff: vlogLen == old(vlogLen) + b2i(cmpErr(old(rec_compose_cnt)) == nil && !skipVerify && implV(cmpRes(old(rec_compose_cnt))))
 //@   ensures C09_verify_this: vlogLen == old(vlogLen) + 1 ==> vlogCfg[old(vlogLen)] == cmpRes(old(rec_compose_cnt))
 //@   ensures C04_installed_iff: (nv != nil) <==> (cmpErr(old(rec_compose_cnt)) == nil && (vlogLen == old(vlogLen) || vlogErr[old(vlogLen)] == nil))
@@ -600,6 +604,8 @@ package dials
 //@     invariant len(computed) == len(sources)
 //@     invariant C09_no_verify_while_reading_sources: vlogLen == old(vlogLen) && rec_compose_cnt == old(rec_compose_cnt)
 //@     invariant chanOpen(watcherChan)
+//@   at call d.monitor(:
+//@     assert C05_C02_the_monitor_restacks_from_the_private_deep_copy: arg2 == vptrH(old(rh), rec_realDeepCopy_res0[old(rec_realDeepCopy_cnt)])
 //@   at call ptrify.Pointerify:
 //@     assume rely_supported_config_type: c01Scope(arg0)
 //@   at call d.value.Store:
